@@ -76,7 +76,7 @@ POLICIES = ['random', 'random', 'starve_jobs', 'jobs_first', 'starve_ptq', 'resu
 
 
 def run_program(prog, scheduler='default', policy='random', seed=0, ops=None, dups=0, max_steps=400, evict=False,
-                declared=None):
+                declared=None, c20=None):
     """ops: list of (at_step, op tuple factory) operator commands; dups: number of messages to re-deliver."""
     rnd = random.Random(seed)
     w = world_mod.World(scheduler=scheduler, seed=seed)
@@ -85,6 +85,18 @@ def run_program(prog, scheduler='default', policy='random', seed=0, ops=None, du
                 mayPause=bool(ops) or bool(prog.flags.get('pause')), faulty=dups > 0)
     try:
         w.oracle = dict(prog.oracle)
+        c20 = dict(c20) if c20 else None
+        if c20:
+            grp = 'action_heartbeat'
+            w.CONF.set_override('first_heartbeat_timeout', c20.get('first', 4), grp)
+            w.CONF.set_override('max_missed_heartbeats', c20.get('missed', 2), grp)
+            w.CONF.set_override('check_interval', c20.get('interval', 2), grp)
+            w.CONF.set_override('execution_integrity_check_delay', c20.get('integrity', 3), 'engine')
+            w.withhold = set(c20.get('silent', [])) | set(c20.get('slow', []))
+            c20['ticks_left'] = c20.get('ticks', 8)
+            c20['dropped'] = not c20.get('drop')
+            meta['c20'] = {k: v for k, v in c20.items() if k in ('silent', 'slow', 'first', 'missed', 'interval', 'integrity', 'drop')}
+            meta['hbThreshold'] = c20.get('missed', 2) * c20.get('interval', 2)
         w.define(prog.yaml())
         pol = Policy(policy, rnd)
 
@@ -138,6 +150,13 @@ def run_program(prog, scheduler='default', policy='random', seed=0, ops=None, du
                 dup_budget -= 1
                 n += 1
                 continue
+            if c20 and not c20['dropped'] and en:
+                jb = [e for e in en if e[0] in ('job', 'lpoll')]
+                r0 = record(w.step(('dropjob', '_scheduled_on_action_complete')))
+                if steps[-1]['ev'].get('n', 0):
+                    c20['dropped'] = True
+                else:
+                    steps.pop()
             if en:
                 st = pol.choose(en, w)
                 if evict and rnd.random() < 0.5:
@@ -160,6 +179,25 @@ def run_program(prog, scheduler='default', policy='random', seed=0, ops=None, du
                 dup_budget -= 1
                 n += 1
                 continue
+            if c20 and (c20['ticks_left'] > 0 or w.withhold):
+                # executor trouble: time passes in steps of one check interval; alive-but-slow actions send
+                # heartbeats, silent ones do not; the checker runs after every interval; finally everything
+                # withheld is released (late genuine results)
+                if c20['ticks_left'] > 0:
+                    c20['ticks_left'] -= 1
+                    obs, ids = record(w.step(('tick', w.now + c20.get('interval', 2))))
+                    slow = set(c20.get('slow', []))
+                    saved = w.withhold
+                    w.withhold = slow
+                    alive = w.withheld_action_ids()
+                    w.withhold = saved
+                    if alive:
+                        obs, ids = record(w.step(('heartbeat', alive)))
+                    obs, ids = record(w.step(('hb',)))
+                    n += 3
+                else:
+                    w.withhold = set()
+                continue
             nd = w.next_due()
             h = hashlib.sha1(json.dumps([obs['wf'], obs['tk'], obs['ax']], sort_keys=True).encode()).hexdigest()
             if nd is None:
@@ -175,6 +213,10 @@ def run_program(prog, scheduler='default', policy='random', seed=0, ops=None, du
         meta['steps'] = n
         meta['action_runs'] = list(w.action_runs)
     finally:
+        if c20:
+            for o_ in ('first_heartbeat_timeout', 'max_missed_heartbeats', 'check_interval'):
+                w.CONF.clear_override(o_, 'action_heartbeat')
+            w.CONF.clear_override('execution_integrity_check_delay', 'engine')
         w.close()
     return dict(prog=prog.abstract(), steps=steps, meta=meta, declared=declared or declared_errors())
 
@@ -206,7 +248,7 @@ def _clean_ev(ev):
     out = {'kind': ev.get('kind', ''), 'exc': ev.get('exc', 'none'), 'dup': bool(ev.get('dup', False)),
            'target': str(ev.get('target_sid', '')), 'arg': str(ev.get('arg', '')),
            'what': str(ev.get('method') or ev.get('op') or ev.get('func') or ev.get('kind')),
-           'phase': str(ev.get('phase', '')), 'now': ev.get('now', 0), 'writes': ev.get('writes', []),
+           'phase': str(ev.get('phase', '')), 'now': ev.get('now', 0), 'n': int(ev.get('n', 0) or 0), 'writes': ev.get('writes', []),
            'exc_msg': ev.get('exc_msg', '')}
     return out
 
